@@ -93,9 +93,12 @@ func c11history(r *hk.Run, ops []c11op) (results []string, final uint32) {
 				fail(i, "a read changed the value")
 			}
 		}
-		if v := c.Get(); v >= 1<<24 || v != uint32(c.Overflow())*256+uint32(c.SQN()) {
-			fail(i, "value != overflow*256+sqn or >= 2^24")
-		}
+		// NOT c.Get() here: Get masks the stored word in place, so an oracle that reads through Get after
+		// every operation would heal exactly the states it is looking for; the invariant is observed
+		// through Get only where the history itself calls Get (case 4) and at the end
+	}
+	if v := c.Get(); v >= 1<<24 || v != uint32(c.Overflow())*256+uint32(c.SQN()) {
+		fail(len(ops)-1, "value != overflow*256+sqn or >= 2^24")
 	}
 	return results, c.Get()
 }
